@@ -218,10 +218,11 @@ def _execute_one(behaviours, d, tag, timeout, res):
             res['error'] = 'harness failed rc=%s: %s' % (rc, out[-3000:])
             return
         res['crashes'].append({'behaviour': intent['t'], 'step': intent['step'], 'what': what})
-        if len(res['crashes']) > 12:
-            res['error'] = 'the server died in more than 12 behaviours (%s)' % what
-            return
         res['lines'] += crash_lines(intent, what)
+        if len(res['crashes']) > 12:
+            # enough deaths observed: what is recorded is judged, the rest is not executed
+            res['not_executed'] = len(queue) - len(done) - 1
+            return
         queue = [b for b in queue if b['id'] not in done and b['id'] != intent['t']]
 
 
@@ -233,9 +234,9 @@ def execute(behaviours, d, procs=2, timeout=900):
         t.start()
     for t in ths:
         t.join()
-    for r in results:
-        if r['error']:
-            raise core.Inconclusive(r['error'])
+    # a harness process that failed for another reason than a server panic: what was recorded before is still
+    # judged (a violation found there stands); without a violation the run is inconclusive
+    execute.error = next((r['error'] for r in results if r['error']), None)
     execute.wall = max(r['wall'] for r in results)
     execute.crashes = sum((r['crashes'] for r in results), [])
     trace = os.path.join(d, 'trace.ndjson')
@@ -248,6 +249,7 @@ def execute(behaviours, d, procs=2, timeout=900):
 
 execute.wall = 0
 execute.crashes = []
+execute.error = None
 
 
 def beh_class(b):
@@ -393,6 +395,10 @@ def run(rep, tier, seed, replay):
     with core.scratch('x04') as d:
         trace = execute(behaviours, d, procs=2 if quick else 4, timeout=900 if quick else 1700)
         tr = judge(rep, behaviours, trace)
+    if execute.error:
+        if not rep.violations:
+            raise core.Inconclusive(execute.error)
+        rep.cov['harness_stopped_early'] = execute.error[:500]
     rep.cov['traces_validated_against_impl'] = len(behaviours)
     rep.cov['trace_lines_validated'] = tr['validated']
     rep.cov['evaluations'] = len(behaviours)
